@@ -32,6 +32,16 @@ Fixpoint lookup_version (t : list (N * vflags)) (v : N) : vflags :=
   end.
 Definition get_version (v : N) : vflags := lookup_version version_table v.
 
+(* what THIS end puts on the wire as its diffusion mode for version v (true =
+   InitiatorAndResponder): setupConnection passes handshakeDiffusionMode := fullDuplex to
+   protocol.GetProtocolVersionMap, whose per-version outcome is the generated adv_table;
+   node-to-client / DMQ version data carry no diffusion mode *)
+Fixpoint lookup_adv (t : list (N * (bool * bool))) (v : N) : bool * bool :=
+  match t with
+  | [] => (false, false)
+  | (w, e) :: r => if w =? v then e else lookup_adv r v
+  end.
+
 (* handshake result as seen by FinishedFunc: version and whether the peer's version data says
    InitiatorAndResponder (server: the client's proposal; client: the server's accepted data) *)
 Record negotiated := mkneg { n_version : N; n_peer_duplex : bool }.
@@ -98,6 +108,12 @@ Definition mux_mode (c : config) (n : negotiated) := mux_mode_f c (n_peer_duplex
 Definition accept_seg (c : config) (n : negotiated) (raw : N) :=
   accept_seg_f c (n_peer_duplex n) (flags_of n) raw.
 
+Definition advertised (c : config) (v : N) : bool :=
+  match knd c with
+  | NtN => let e := lookup_adv adv_table v in if full_duplex c then snd e else fst e
+  | _ => false
+  end.
+
 (* registered endpoints, as a list, for the correspondence *)
 Definition reg_endpoints (r : reg) : list endpoint :=
   flat_map (fun e : N * (bool * bool) => (if fst (snd e) then [(fst e, Initiator)] else [])
@@ -134,7 +150,10 @@ Inductive case :=
    regs = the muxer registrations observed afterwards; probes = segments sent afterwards
    and whether they were accepted *)
 | CLife (c : config) (n : negotiated) (evs : list lifeev) (regs : list endpoint)
-        (probes : list (N * bool)).
+        (probes : list (N * bool))
+(* the diffusion mode this end was seen to put on the wire for the accepted version
+   (decoded from its ProposeVersions / AcceptVersion message) *)
+| CAdv (c : config) (v : N) (own : bool).
 
 Definition check_case (k : case) : bool :=
   match k with
@@ -148,5 +167,6 @@ Definition check_case (k : case) : bool :=
     ep_set_eqb (reg_endpoints r) regs
     && forallb (fun p => Bool.eqb (match route_seg r (mux_mode c n) (fst p) with
                                    | inr _ => true | inl _ => false end) (snd p)) probes
+  | CAdv c v own => Bool.eqb (advertised c v) own
   end.
 Definition mismatches := failing check_case.
